@@ -268,6 +268,11 @@ def document(rng, dsx, sp, date="2024-01-01T00:00:00", decorate=True, header=Tru
         rng.shuffle(c_els)
     tm = w.E("TelemetryMetaData", None, w.E("ParameterTypeSet", None, *t_els), w.E("ParameterSet", None, *p_els),
              w.E("ContainerSet", None, *c_els))
-    hdr = w.E("Header", {"date": date, "version": "1.0", "validationStatus": "Unknown"}) if header else None
+    hattrs = {"date": date, "version": "1.0", "validationStatus": "Unknown"}
+    if decorate and rng.random() < 0.3:
+        # `version` and `validationStatus` are optional attributes of the Header
+        for k in rng.sample(["version", "validationStatus"], rng.randrange(1, 3)):
+            del hattrs[k]
+    hdr = w.E("Header", hattrs) if header else None
     root = w.E("SpaceSystem", {"name": name} if name else None, hdr, tm, root=True)
     return ET.tostring(root, pretty_print=sp.pretty, xml_declaration=True, encoding="utf-8")
